@@ -57,8 +57,22 @@ def dump_obj(o):
     raise AssertionError("unknown node %r" % type(o))
 
 
+_impl_cache = {}
+
+
 def impl_parse(text):
-    """("ok", dump) | ("error",) | ("internal", exception name)"""
+    """("ok", dump) | ("error",) | ("internal", exception name); raises Skip at the recursion limit"""
+    r = _impl_cache.get(text)
+    if r is None:
+        r = _impl_parse(text)
+        if len(_impl_cache) < 200000:
+            _impl_cache[text] = r
+    if r == "skip":
+        raise Skip()
+    return r
+
+
+def _impl_parse(text):
     from bob.errors import ParseError
     from bob import stringparser as sp
     try:
@@ -66,7 +80,7 @@ def impl_parse(text):
     except ParseError:
         return ("error",)
     except RecursionError:
-        raise Skip()
+        return "skip"
     except Exception as ex:       # noqa
         return ("internal", type(ex).__name__)
 
@@ -344,7 +358,7 @@ def coq_mismatches(ctx, texts, results, tag):
     return coq.run_cases(ctx, REQ, FN, EQB, cases, shard=250, tag=tag)
 
 
-def minimise(ctx, text, rounds=10):
+def minimise(ctx, text, rounds=6):
     """greedy deletion of characters / chunks while model and implementation still disagree
     (each round = one coqc call over all candidates)"""
     for _ in range(rounds):
@@ -413,6 +427,42 @@ def show(e):
     return render_min(e, None)
 
 
+def shape(r):
+    """result with the contents of the literals blanked"""
+    def go(d):
+        if d[0] == "lit":
+            return ("lit",)
+        if d[0] == "fn":
+            return ("fn", d[1], [go(a) for a in d[2]])
+        if d[0] == "not":
+            return ("not", go(d[1]))
+        return ("bin", d[1], go(d[2]), go(d[3]))
+    return (r[0], go(r[1])) if r[0] == "ok" else r
+
+
+# ------------------------------------------------------------------ twin of Coq's render_if (IfGrammar.v)
+CLVL = {"<": 2, "<=": 3, ">": 4, ">=": 5, "==": 6, "!=": 7, "&&": 8, "||": 9}
+
+
+def coq_render_sx(e):
+    if e[0] == "lit":
+        if e[2]:
+            return '"' + "".join({"\\": "\\\\", '"': '\\"', "\n": "\\n", "\r": "\\r"}.get(c, c) for c in e[1]) + '"'
+        return "'" + e[1] + "'"
+    return e[1] + "(" + ", ".join(coq_render_sx(a) for a in e[2]) + ")"
+
+
+def coq_render_at(k, e):
+    if is_str(e):
+        lv, body = 0, coq_render_sx(e)
+    elif e[0] == "not":
+        lv, body = 1, "!" + coq_render_at(1, e[1])
+    else:
+        lv = CLVL[e[1]]
+        body = coq_render_at(lv, e[2]) + " " + e[1] + " " + coq_render_at(lv - 1, e[3])
+    return body if lv <= k else "(" + body + ")"
+
+
 # ------------------------------------------------------------------ main
 def run_ifgrammar(ctx):
     rng = ctx.rng
@@ -431,19 +481,23 @@ def run_ifgrammar(ctx):
 
     for t in HAND:
         add(t, "hand")
-    n_rend = int(n_total * 0.4)
-    n_soup = int(n_total * 0.3)
+    n_rend = int(n_total * 0.35)
+    n_soup = int(n_total * 0.35)
     oracle_cases = 0
+    n_prec_reported = 0
     # ---- (i) rendered ASTs; direct oracle on the minimal-parentheses rendering
     for i in range(n_rend):
         typed = rng.random() < 0.85
-        e = no_linebreaks(gen_ast(rng, rng.choice([1, 2, 2, 3, 3, 4]), typed))
         mode = rng.random()
-        if mode < 0.5:
+        # (pyparsing needs time exponential in the nesting depth of parentheses: deep trees only with few of them)
+        if mode < 0.55:
+            e = no_linebreaks(gen_ast(rng, rng.choice([1, 2, 2, 3, 3, 4]), typed))
             text = render_min(e, rng, 0.0); kind = "rendered:minimal-parens+ws"
-        elif mode < 0.8:
-            text = render_min(e, rng, 0.2); kind = "rendered:redundant-parens+ws"
+        elif mode < 0.85:
+            e = no_linebreaks(gen_ast(rng, rng.choice([1, 2, 2, 3]), typed))
+            text = render_min(e, rng, 0.15); kind = "rendered:redundant-parens+ws"
         else:
+            e = no_linebreaks(gen_ast(rng, rng.choice([1, 1, 2, 2]), typed))
             text = render_full(e, rng); kind = "rendered:full-parens+ws"
         add(text, kind + ("" if typed_ok(e) else ":ill-typed-comparison"))
         # the direct oracle (independent of the Coq model)
@@ -453,7 +507,8 @@ def run_ifgrammar(ctx):
             continue
         want = ("ok", canon(doc_ast(e))) if typed_ok(e) else ("error",)
         oracle_cases += 1
-        if r != want and r[0] != "internal":
+        if r != want and r[0] != "internal" and n_prec_reported < 3:
+            n_prec_reported += 1
             def fails(x):
                 try:
                     return impl_parse(show(x)) != (("ok", canon(doc_ast(x))) if typed_ok(x) else ("error",))
@@ -463,8 +518,10 @@ def run_ifgrammar(ctx):
             t2 = show(small) if fails(e) else text
             got = impl_parse(t2)
             w2 = ("ok", canon(doc_ast(small))) if typed_ok(small) else ("error",)
-            ctx.violation("if-precedence-differs-from-documented",
-                          "parseExpression(%r) = %r; documented precedence/associativity (bobpaths(7)) gives %r" % (t2, got, w2),
+            sig = ("if-precedence-differs-from-documented" if shape(got) != shape(w2)
+                   else "if-literal-differs-from-documented")
+            ctx.violation(sig, "parseExpression(%r) = %r; documented syntax (bobpaths(7): precedence table, string "
+                          "literals) gives %r" % (t2, got, w2),
                           {"ifexpr_text": t2, "original": text, "impl_ast": got, "documented_ast": w2})
     ctx.count("ifgrammar:oracle-documented-precedence", oracle_cases)
     # ---- (ii) token soups and mutated renderings
@@ -479,6 +536,7 @@ def run_ifgrammar(ctx):
 
     # ---- implementation
     keep_t, keep_r, keep_k = [], [], []
+    sq_viol = None
     for t, k in zip(texts, kinds):
         try:
             r = impl_parse(t)
@@ -500,11 +558,49 @@ def run_ifgrammar(ctx):
         ctx.nontrivial(("ifg", t))
         keep_t.append(t); keep_r.append(r); keep_k.append(k)
         # ---- direct oracle (3): single quoted literals are verbatim
-        if SQ_VERBATIM_ORACLE and r[0] == "ok":
-            check_sq_verbatim(ctx, t, r[1])
+        if SQ_VERBATIM_ORACLE and r[0] == "ok" and "'" in t:
+            ctx.count("ifgrammar:oracle-single-quote-verbatim")
+            v = check_sq_verbatim(t, r[1])
+            if v is not None and (sq_viol is None or len(t) < len(sq_viol[0])):
+                sq_viol = (t,) + v
+    if sq_viol is not None:
+        t, w, have, expr = sq_viol
+        ctx.violation("if-single-quote-not-verbatim",
+                      "single quoted literal '%s' of %r is not taken verbatim: the parser's literals are %r (bobpaths(7), "
+                      "String literals: 'Any character in between is taken verbatim'); %r is documented to be true"
+                      % (w, t, have, expr),
+                      {"cx": {"env": {}, "nounset": False, "sandbox": False, "tools": {}}, "ifexpr": expr, "expect": True,
+                       "found_in": t, "literal": w})
     if len(ctx.cov["samples"]) < 6:
         for t, r in list(zip(keep_t, keep_r))[len(HAND):len(HAND) + 2]:
             ctx.sample({"ifgrammar": t, "impl": r})
+
+    # ---- texts produced by Coq's render_if (theorem parse_if_render): the implementation must parse them to the AST
+    rcases, rmeta = [], []
+    for i in range(ctx.n(150, 1500)):
+        e = doc_ast(no_linebreaks(gen_ast(rng, rng.choice([1, 2, 3, 3, 4]), True)))
+        text = coq_render_at(9, e)
+        try:
+            r = impl_parse(text)
+        except Skip:
+            continue
+        ctx.evaluated(); ctx.count("ifgrammar:coq-rendered:" + r[0])
+        if r[0] == "internal":
+            continue
+        rcases.append((coq_ifexpr(e), "(%s, %s)" % (L.s(text), coq_expected(r))))
+        rmeta.append({"text": text, "ast": e, "impl": r})
+    pre = """
+Definition rcase (e : ifexpr) : bool * str * option ifexpr * ifexpr := (wf_if e, render_if e, parse_if_canon (render_if e), canon_if e).
+Definition rcase_ok (o : bool * str * option ifexpr * ifexpr) (x : str * option ifexpr) : bool :=
+  let '(wf, t, r, c) := o in wf && str_eqb t (fst x) && eqb_opt_if r (snd x) && eqb_opt_if (snd x) (Some c).
+"""
+    bad, log = coq.run_cases(ctx, REQ, "rcase", "rcase_ok", rcases, shard=250, tag="ifgr", preamble=pre)
+    if bad is None:
+        ctx.tie_broken("C17-ifgrammar render evaluation failed", log)
+    else:
+        ctx.validated(len(rcases) - len(bad))
+        for i in bad[:3]:
+            ctx.tie_broken("C17-ifgrammar-render", rmeta[i])
 
     # ---- Coq model on the same strings
     bad, log = coq_mismatches(ctx, keep_t, keep_r, "ifg")
@@ -515,8 +611,8 @@ def run_ifgrammar(ctx):
     ctx.count("ifgrammar:cases", len(keep_t))
     if bad:
         ctx.count("ifgrammar:model-mismatch", len(bad))
-    for i in sorted(bad, key=lambda i: len(keep_t[i]))[:3]:
-        small = minimise(ctx, keep_t[i])
+    for n_rep, i in enumerate(sorted(bad, key=lambda i: len(keep_t[i]))[:3]):
+        small = minimise(ctx, keep_t[i]) if n_rep == 0 else keep_t[i]
         ctx.tie_broken("C17-ifgrammar", {"text": small, "original_text": keep_t[i], "kind": keep_k[i],
                                          "impl": impl_parse(small), "model": "differs (parse_if_canon)"})
 
@@ -558,28 +654,15 @@ def all_lits(d, acc):
     return acc
 
 
-_sq_reported = set()
-
-
-def check_sq_verbatim(ctx, text, dump):
+def check_sq_verbatim(text, dump):
+    """None, or (literal, the parser's literals, expression whose documented value is true)"""
     want = sq_literals_of(text)
-    if not want:
-        return
     have = [l[1] for l in all_lits(dump, [])]
-    ctx.count("ifgrammar:oracle-single-quote-verbatim")
     for w in want:
         if w not in have:
-            # evaluation difference on the smallest expression with this literal: documented value of both sides equal
-            lit = "'" + w + "'"
-            # double quoted text with the same documented value: expression level \\\\ -> \\, \\" -> ", then substitution
+            # evaluation difference on the smallest expression with this literal: the documented values of both
+            # sides are equal.  Double quoted text with the same documented value: at the expression level
+            # \\\\ -> \\ and \\" -> ", then string substitution removes one more level.
             dq = '"' + "".join({"\\": "\\" * 4, '"': "\\" * 3 + '"', "$": "\\" * 2 + "$"}.get(c, c) for c in w) + '"'
-            expr = lit + " == " + dq
-            if "if-single-quote-not-verbatim" in _sq_reported:
-                return
-            _sq_reported.add("if-single-quote-not-verbatim")
-            ctx.violation("if-single-quote-not-verbatim",
-                          "single quoted literal %s of %r is not taken verbatim: the parser's literals are %r "
-                          "(bobpaths(7): 'Any character in between is taken verbatim')" % (lit, text, have),
-                          {"cx": {"env": {}, "nounset": False, "sandbox": False, "tools": {}}, "ifexpr": expr, "expect": True,
-                           "found_in": text, "literal": w})
-            return
+            return (w, have, "'" + w + "' == " + dq)
+    return None
